@@ -47,9 +47,19 @@ type Scenario struct {
 	LightModel    bool // skip the (8 MB) running-filter family in the model comparison
 	Warm          bool // ask event queries on node A before each revert (fills the filter cache)
 	Restart       bool // after each round also compare restarted copies of A and B
-	Seed          uint64
-	Case          int
-	Name          string
+	// Base: the chain starts on a prebuilt image of Base.Len empty blocks (boundary.go); Main are the blocks above it
+	Base *Base
+	// QueryEach: after every operation of node A event queries are asked on A (same Blockchain instance
+	// unless the restart plan says otherwise) and compared with the ground truth and with the model
+	QueryEach bool
+	// FinaliseA: node A produces every second block itself (Blockchain.Finalise, the sequencer's path) instead
+	// of receiving it through Store; B always uses Store
+	FinaliseA bool
+	// FullBaseDump: the first checkpoint compares the model with the WHOLE database (ties the closed-form base)
+	FullBaseDump bool
+	Seed      uint64
+	Case      int
+	Name      string
 }
 
 var versions = []string{"0.13.2", "0.13.4", "0.14.0", "0.14.1"}
@@ -399,6 +409,23 @@ func (n *Node) StoreWrongParent(b *lib.Bundle) (c *lib.Bundle, attempted bool, e
 func (n *Node) Store(b *lib.Bundle) error {
 	err, _, _ := lib.Try(func() error { return lib.StoreOn(n.BC, b) })
 	return err
+}
+
+// FinaliseOwn makes the node produce the block itself (sequencer mode: Blockchain.Finalise computes the
+// roots and the hash and writes the block) instead of receiving it through Store. The input is what the
+// source node was given: no hash, no new root. The outcome must be the block the source finalised.
+func (n *Node) FinaliseOwn(b *lib.Bundle) error {
+	c := b.Clone()
+	c.Block.Hash, c.SU.BlockHash = nil, nil
+	c.Block.GlobalStateRoot, c.SU.NewRoot = nil, nil
+	err, _, _ := lib.Try(func() error { return n.BC.Finalise(c.Block, c.SU, c.Classes, nil) })
+	if err != nil {
+		return fmt.Errorf("finalise: %w", err)
+	}
+	if c.Block.Hash == nil || !c.Block.Hash.Equal(b.Block.Hash) || c.Block.GlobalStateRoot == nil || !c.Block.GlobalStateRoot.Equal(b.Block.GlobalStateRoot) {
+		return fmt.Errorf("finalise: the node finalised another block than the source node did from the same input (hash %v / %v)", c.Block.Hash, b.Block.Hash)
+	}
+	return nil
 }
 
 func (n *Node) Revert() error {
